@@ -165,6 +165,7 @@ type Engine struct {
 	ifaceContracts map[string]*Contract // assumed contracts on interface methods / bodyless externals, by full name
 	globals   []*GlobalInv
 	specPaths int
+	boundedLoops map[string]bool
 	globalNames map[int64]string
 	opaqueT   map[string]bool // spec functions kept uninterpreted while the current target is verified
 	heapTouch int
@@ -539,7 +540,7 @@ func (e *Engine) symbolic(s *State, name string, t types.Type) Val {
 		r := e.declare(s, name+".dyn", "Ref")
 		e.assume(s, app(">=", "Bool", r, refT(0)))
 		e.assume(s, implies(refPos(r), sel(s.alloc, r, "Bool")))
-		return IfaceV{IsNil: eq(r, refT(0)), V: r}
+		return IfaceV{IsNil: eq(r, refT(0)), V: r, Static: t}
 	case *types.Map:
 		r := e.declare(s, name, "Ref")
 		e.assume(s, app(">=", "Bool", r, refT(0)))
